@@ -198,6 +198,17 @@ func (n *Node) listen() error {
 		router.ServeHTTP(w, r)
 		if r.Method == "POST" {
 			n.fixDrainer()
+			if action == "open" {
+				// the replica process's main goroutine marks a freshly opened replica that is
+				// not a clone "NA" (app/replica.go, after the first open of the process; in the
+				// product every open is the first one of a new process)
+				func() {
+					defer func() { recover() }()
+					if rp := n.S.Replica(); rp != nil && rp.GetCloneStatus() == "" {
+						rp.SetCloneStatus("NA")
+					}
+				}()
+			}
 		}
 	})}
 	go n.httpSrv.Serve(n.restLn)
